@@ -979,6 +979,10 @@ def s_vec_index(m, st, info, args):
             hi = m.index_value(idx.f[0])
         elif tn.endswith("RangeFull"):
             pass
+        elif tn.endswith("RangeToInclusive"):
+            hi = m.index_value(idx.f[0]) + 1
+        elif tn.endswith("RangeInclusive"):
+            lo, hi = m.index_value(idx.f[0]), m.index_value(idx.f[1]) + 1
         elif tn.endswith("Range"):
             lo, hi = m.index_value(idx.f[0]), m.index_value(idx.f[1])
         else:
@@ -1001,32 +1005,31 @@ def s_vec_clone(m, st, info, args):
 
 @summary(r"<std::vec::Vec<T, A> as std::iter::IntoIterator>::into_iter")
 def s_vec_into_iter(m, st, info, args):
+    """build the real vec::IntoIter struct (buf, phantom, cap, alloc, ptr, end)
+    over a heap copy of the items, so that core's own IntoIter code (next,
+    try_fold, fold, ...) is interpreted on element pointers"""
     v = args[0]
     if not isinstance(v, VecVal):
         raise Unsupported("into_iter on %r" % (v,))
-    return Obj("vec_into_iter", items=list(v.items), i=0)
-
-
-@summary(r"<std::vec::IntoIter<T, A> as std::iter::Iterator>::next")
-def s_vec_into_iter_next(m, st, info, args):
-    it = deref(m, args[0])
     tid = ret_ty(m, info)
-    d = it.d
-    if d["i"] >= len(d["items"]):
-        return mk_none(m, tid)
-    x = d["items"][d["i"]]
-    d["i"] += 1
-    return mk_some(m, tid, x)
-
-
-@summary(r"<std::vec::IntoIter<T, A> as std::iter::DoubleEndedIterator>::next_back")
-def s_vec_into_iter_next_back(m, st, info, args):
-    it = deref(m, args[0])
-    tid = ret_ty(m, info)
-    d = it.d
-    if d["i"] >= len(d["items"]):
-        return mk_none(m, tid)
-    return mk_some(m, tid, d["items"].pop())
+    t = m.p.types[tid]
+    cell = Cell(VecVal(list(v.items)))
+    n = len(v.items)
+    out = []
+    for f in t["variants"][0]["fields"]:
+        ft = m.p.types[f["ty"]]
+        nm = f["name"]
+        if nm in ("buf", "ptr"):
+            p = Ptr(cell, (0,))
+            out.append(m.wrap_newtype(f["ty"], p) if ft["k"] == "adt" else p)
+        elif nm == "end":
+            p = Ptr(cell, (n,))
+            out.append(m.wrap_newtype(f["ty"], p) if ft["k"] == "adt" else p)
+        elif nm == "cap":
+            out.append(n)
+        else:
+            out.append(Agg(f["ty"], 0, []))
+    return Agg(tid, 0, out)
 
 
 def find_next_instance(m, fn, iter_ty_name, depth=6):
@@ -1070,10 +1073,6 @@ def drain_iterator(m, st, info, it_value, it_ty, on_item, on_done):
         for x in it_value.items:
             on_item(x)
         return on_done()
-    if isinstance(it_value, Obj) and it_value.kind == "vec_into_iter":
-        for x in it_value.d["items"][it_value.d["i"]:]:
-            on_item(x)
-        return on_done()
     fn = m.p.fns[info["fn"]]
     nxt = fn.get("iter_next")
     into = fn.get("into_iter")
@@ -1112,8 +1111,6 @@ def drain_iterator(m, st, info, it_value, it_ty, on_item, on_done):
          r"<std::vec::Vec<T> as std::vec::spec_from_iter::SpecFromIter<T, I>>::from_iter")
 def s_vec_from_iter(m, st, info, args):
     it = args[0]
-    if isinstance(it, Obj) and it.kind == "vec_into_iter":
-        return VecVal(it.d["items"][it.d["i"]:])
     if isinstance(it, VecVal):
         return it
     out = VecVal()
@@ -1846,3 +1843,115 @@ def s_string_write_str(m, st, info, args):
 def s_string_write_char(m, st, info, args):
     strbuf_of(m, args[0]).chars.append(args[1])
     return mk_ok(m, ret_ty(m, info), unit())
+
+
+def slice_view(m, p):
+    """(container VecVal, start, len) of a slice pointer"""
+    if type(p) is BytesRef:
+        p = m.materialize_bytes(p.chars)
+    p = m.unwrap_ptr(p) if isinstance(p, Agg) else p
+    if not isinstance(p, Ptr):
+        raise Unsupported("slice pointer expected: %r" % (p,))
+    cont = m.read_loc(Loc(p.cell, p.path))
+    if not isinstance(cont, VecVal):
+        raise Unsupported("slice over %r" % (cont,))
+    if p.meta is not None and p.meta[0] == "slice":
+        return cont, p.meta[1], p.meta[2]
+    return cont, 0, len(cont.items)
+
+
+@summary(r"core::slice::<impl \[T\]>::reverse")
+def s_slice_reverse(m, st, info, args):
+    cont, a, n = slice_view(m, args[0])
+    cont.items[a:a + n] = cont.items[a:a + n][::-1]
+    return unit()
+
+
+@summary(r"core::slice::<impl \[T\]>::swap")
+def s_slice_swap(m, st, info, args):
+    cont, a, n = slice_view(m, args[0])
+    i, j = m.index_value(args[1]), m.index_value(args[2])
+    if i >= n or j >= n:
+        raise PathEnd("panic", "slice::swap index out of bounds")
+    cont.items[a + i], cont.items[a + j] = cont.items[a + j], cont.items[a + i]
+    return unit()
+
+
+@summary(r"std::mem::swap", r"core::mem::swap")
+def s_mem_swap(m, st, info, args):
+    pa, pb = m.unwrap_ptr(args[0]), m.unwrap_ptr(args[1])
+    la, lb = Loc(pa.cell, pa.path), Loc(pb.cell, pb.path)
+    va, vb = m.read_loc(la), m.read_loc(lb)
+    m.write_loc(la, vb)
+    m.write_loc(lb, va)
+    return unit()
+
+
+@summary(r"std::mem::replace", r"core::mem::replace")
+def s_mem_replace(m, st, info, args):
+    pa = m.unwrap_ptr(args[0])
+    la = Loc(pa.cell, pa.path)
+    old = m.read_loc(la)
+    m.write_loc(la, args[1])
+    return old
+
+
+@summary(r"std::ptr::drop_in_place", r"core::ptr::drop_in_place", r"std::mem::drop", r"core::mem::drop", r"std::mem::forget")
+def s_drop(m, st, info, args):
+    return unit()
+
+
+# --- VecDeque as a VecVal ---------------------------------------------------------
+
+
+@summary(r"std::collections::VecDeque::<T>::new", r"std::collections::VecDeque::<T>::with_capacity",
+         r"<std::collections::VecDeque<T> as std::default::Default>::default")
+def s_vd_new(m, st, info, args):
+    return VecVal()
+
+
+@summary(r"std::collections::VecDeque::<T, A>::push_back")
+def s_vd_push_back(m, st, info, args):
+    vec_of(m, args[0]).items.append(args[1])
+    return unit()
+
+
+@summary(r"std::collections::VecDeque::<T, A>::push_front")
+def s_vd_push_front(m, st, info, args):
+    vec_of(m, args[0]).items.insert(0, args[1])
+    return unit()
+
+
+@summary(r"std::collections::VecDeque::<T, A>::pop_front")
+def s_vd_pop_front(m, st, info, args):
+    v = vec_of(m, args[0])
+    tid = ret_ty(m, info)
+    if not v.items:
+        return mk_none(m, tid)
+    return mk_some(m, tid, v.items.pop(0))
+
+
+@summary(r"std::collections::VecDeque::<T, A>::pop_back")
+def s_vd_pop_back(m, st, info, args):
+    v = vec_of(m, args[0])
+    tid = ret_ty(m, info)
+    if not v.items:
+        return mk_none(m, tid)
+    return mk_some(m, tid, v.items.pop())
+
+
+@summary(r"std::collections::VecDeque::<T, A>::len")
+def s_vd_len(m, st, info, args):
+    return len(vec_of(m, args[0]).items)
+
+
+@summary(r"std::collections::VecDeque::<T, A>::is_empty")
+def s_vd_is_empty(m, st, info, args):
+    return len(vec_of(m, args[0]).items) == 0
+
+
+@summary(r"<std::boxed::Box<T, A> as std::ops::Drop>::drop", r"<std::vec::Vec<T, A> as std::ops::Drop>::drop",
+         r"<std::vec::IntoIter<T, A> as std::ops::Drop>::drop", r"<std::rc::Rc<T, A> as std::ops::Drop>::drop",
+         r"<alloc::raw_vec::RawVec<T, A> as std::ops::Drop>::drop")
+def s_drop_impl(m, st, info, args):
+    return unit()
